@@ -38,9 +38,16 @@ theorem docset_add_table_matches_model :
       (∀ ts, applyOpt ctx (.withTags ts) = { ctx with tags := ctx.tags ++ ts }) ∧
       applyOpt ctx .mergeTags = { ctx with mergeFn := .mergeTags } ∧
       applyOpt ctx .mustCreate = { ctx with mergeFn := .mustCreate }) ∧
-    (∀ opts, (applyOpts opts : Ctx Node) = (defaultOpts ++ opts).foldl applyOpt ⟨none, [], .none⟩) :=
-  ⟨by decide +kernel, by decide +kernel, by decide +kernel, by decide +kernel, by decide +kernel,
-   by decide +kernel, addContext_eq_table, applyOpt_effects, applyOpts_order⟩
+    (∀ opts, (applyOpts opts : Ctx Node) = (defaultOpts ++ opts).foldl applyOpt ⟨none, [], .none⟩) ∧
+    (∀ (s : State Node) name doc newCtx ex ctor, AMap.get? s.ctxMap name = some ex →
+      newCtx.mergeFn.ctor = some ctor →
+      addContext s name doc newCtx = reAddBy Generated.docsetOptions s name newCtx ex ctor) := by
+  have hopt : Generated.docsetOptions = optionTable := by decide +kernel
+  refine ⟨by decide +kernel, by decide +kernel, by decide +kernel, by decide +kernel, by decide +kernel,
+    hopt, addContext_eq_table, applyOpt_effects, applyOpts_order, ?_⟩
+  intro s name doc newCtx ex ctor hx hc
+  rw [hopt]
+  exact addContext_reAdd_eq_table s name doc newCtx ex ctor hx hc
 
 /-- the statements of a regenerated option constructor -/
 def optionG (ctor : String) : List String := (Generated.docsetOptions.lookup ctor).getD []
